@@ -59,6 +59,16 @@ T_c04l == /\ E.ev = "c04l"
                              /\ want \subseteq listed /\ listed \subseteq (want \cup maybe),
                              viol, "C04-thread-list-incomplete-or-duplicated")
           /\ drift' = drift /\ Inc("c04l") /\ nchk' = nchk + 1
+(* a spinning thread keeps one counter in a register, in the word at its stack pointer and in an application word,
+   incrementing them in that order: a consistent snapshot shows them at most one step apart *)
+T_c04s == /\ E.ev = "c04s"
+          /\ viol' = Note(E.reg - E.stackWord \in {0, 1} /\ E.reg - E.appWord \in {0, 1} /\ E.stackWord - E.appWord \in {0, 1},
+                          viol, "C04-thread-ran-between-captures")
+          /\ drift' = drift /\ Inc("c04l") /\ nchk' = nchk + 1
+(* order of the tracer's steps in one dump: every stream is written while all listed threads are attached *)
+T_c04o == /\ E.ev = "c04o"
+          /\ viol' = Note(E.detachesBeforeLastRead = 0 /\ E.streamsAfterResume = 0, viol, "C04-threads-resumed-before-last-read-of-target")
+          /\ drift' = drift /\ Inc("c04l") /\ nchk' = nchk + 1
 (* ----------------------------------------------------------------- C05 *)
 DumpRequested == <<65535, 65535, 0, 0>>
 T_c05 == /\ E.ev = "c05"
@@ -125,7 +135,7 @@ T_c07 == /\ E.ev = "c07"
          /\ drift' = Note(Len(E.regions) = Len(E.app) + Len(E.stacks) + (IF E.ipMapped THEN 1 ELSE 0), drift, "memory-list-count")
          /\ Inc("c07") /\ nchk' = nchk + 1
 T_failed == E.ev = "failed" /\ UNCHANGED <<viol, drift, nchk, cnt>>
-TNext == l <= Len(Rec) /\ (T_c04t \/ T_c04l \/ T_c05 \/ T_c06t \/ T_c20t \/ T_c20s \/ T_c07 \/ T_failed) /\ l' = l + 1 /\ UNCHANGED vars
+TNext == l <= Len(Rec) /\ (T_c04t \/ T_c04l \/ T_c04s \/ T_c04o \/ T_c05 \/ T_c06t \/ T_c20t \/ T_c20s \/ T_c07 \/ T_failed) /\ l' = l + 1 /\ UNCHANGED vars
 TSpec == TInit /\ [][TNext]_tvars
 Verdict == l = Len(Rec) + 1 =>
    PrintT(<<"VERDICT", ToJson([events |-> Len(Rec), checked |-> nchk, counts |-> cnt, viol |-> viol, drift |-> drift])>>)
